@@ -246,3 +246,87 @@ func Collect(it kvdb.Iterator) []Pair {
 	it.Release()
 	return res
 }
+
+// ---------------------------------------------------------------------
+// FS: a set of named durable stores with a global durable-step counter and crash injection.
+// Every put / delete / batch write / database drop is one durable step; when the counter reaches
+// CrashAt the step is NOT applied and Crash is raised as a panic.
+
+type Crash struct{}
+
+type FS struct {
+	DBs     map[string]*Store
+	Steps   int
+	CrashAt int // -1: never
+}
+
+func NewFS() *FS { return &FS{DBs: map[string]*Store{}, CrashAt: -1} }
+
+func (fs *FS) step() {
+	if fs.Steps == fs.CrashAt {
+		panic(Crash{})
+	}
+	fs.Steps++
+}
+
+type fsStore struct {
+	*Store
+	fs   *FS
+	name string
+}
+
+func (s *fsStore) Drop() {
+	s.fs.step()
+	delete(s.fs.DBs, s.name)
+}
+
+func (s *fsStore) Close() error { return nil }
+
+// OpenDB returns the named store, creating an empty one if needed (creation itself is not a durable step:
+// an absent and an empty database are equivalent).
+func (fs *FS) OpenDB(name string) (kvdb.Store, error) {
+	st, ok := fs.DBs[name]
+	if !ok {
+		st = New()
+		st.OnStep = fs.step
+		fs.DBs[name] = st
+	}
+	return &fsStore{st, fs, name}, nil
+}
+
+func (fs *FS) Names() []string {
+	var res []string
+	for _, n := range []string{"A", "B", "C"} { // deterministic order over the names the harnesses use
+		if _, ok := fs.DBs[n]; ok {
+			res = append(res, n)
+		}
+	}
+	return res
+}
+
+// Snapshot copies the data of every database (keys other than skipKey).
+func (fs *FS) Snapshot(skipKey []byte) map[string]*Map {
+	res := map[string]*Map{}
+	for n, st := range fs.DBs {
+		m := &Map{}
+		for _, p := range st.M.Pairs {
+			if !bytes.Equal(p.K, skipKey) {
+				m.Set(p.K, p.V)
+			}
+		}
+		res[n] = m
+	}
+	return res
+}
+
+// Reopen returns an FS over the same durable contents with crash injection off (the restarted process).
+func (fs *FS) Reopen() *FS {
+	r := NewFS()
+	for n, st := range fs.DBs {
+		c := New()
+		c.M = st.M.Copy()
+		c.OnStep = r.step
+		r.DBs[n] = c
+	}
+	return r
+}
